@@ -82,8 +82,8 @@ PROPS = {
     },
     "C06": {
         "title": "Over the network SET/GET/DEL answer exactly as the map model, in order",
-        "rules": [k2s.p11_command_application, k2s.p12_handler_loop, k4.v2_parse_frame, k4.v3_read_frame_eof, k4.v6_write_frame_flushes, k3.s9_command_table, k2.p6b_pool_filled, k2.p3_publish_after_append, k2.p18_handle_delegation, k8.s9b_client_encoders, k8.v7_argument_parsers, k9.s19_value_transparency, k9.s20_client_response_mapping, k9.s18_encoder_sequence, k9.s21_forwarding, k9.b1_server_binary_lifetime, k9.s23_argument_errors_reject, k1.w5_permit_ops, k10.v9_no_size_limit, k8.p20_shutdown_helper],
-        "decides": "one reply per applied command, after the storage call completed, none on error paths, with the prescribed variant and the stored bytes; DEL counts Ok(true); the connection loop is read→parse→apply→reply; Incomplete ⇒ read more; exactly the checked length is consumed on every path and the read buffer is never replaced; every reply is flushed unconditionally; command names matched by full equality; DEL processes every key; arguments: only bulk strings, list ends only when exhausted, GET/SET reject trailing arguments; delete reports presence from under the writer lock; client encoders use the dispatched literals; no partial writes; Ok(None) only on Incomplete; values are carried as the bytes received (Set takes its value from get_bytes, apply passes the command's own key/value, GET replies with the store's bytes); the client writes its request before reading one response and maps replies per command; the encoder emits the RESP sequence per frame kind; the KeyValueStorage impl maps set/get/del to put/get/delete; the server binary keeps the store open while serving; argument errors reject the whole command; a connection slot is released in Handler's Drop on every way a handler ends (errors included), so later connections are still accepted and answered; the socket is read only after the buffered bytes were tried (requests that arrive in one segment are all answered); the parser compares an announced length only with the bytes at hand or 0/-1 (no size limit of its own: a large value is not refused)",
+        "rules": [k2s.p11_command_application, k2s.p12_handler_loop, k4.v2_parse_frame, k4.v3_read_frame_eof, k4.v6_write_frame_flushes, k3.s9_command_table, k2.p6b_pool_filled, k2.p3_publish_after_append, k2.p18_handle_delegation, k8.s9b_client_encoders, k8.v7_argument_parsers, k9.s19_value_transparency, k9.s20_client_response_mapping, k9.s18_encoder_sequence, k9.s21_forwarding, k9.b1_server_binary_lifetime, k9.s23_argument_errors_reject, k1.w5_permit_ops, k10.v9_no_size_limit, k8.p20_shutdown_helper, k10.s19b_key_transparency],
+        "decides": "one reply per applied command, after the storage call completed, none on error paths, with the prescribed variant and the stored bytes; DEL counts Ok(true); the connection loop is read→parse→apply→reply; Incomplete ⇒ read more; exactly the checked length is consumed on every path and the read buffer is never replaced; every reply is flushed unconditionally; command names matched by full equality; DEL processes every key; arguments: only bulk strings, list ends only when exhausted, GET/SET reject trailing arguments; delete reports presence from under the writer lock; client encoders use the dispatched literals; no partial writes; Ok(None) only on Incomplete; values are carried as the bytes received (Set takes its value from get_bytes, apply passes the command's own key/value, GET replies with the store's bytes); the client writes its request before reading one response and maps replies per command; the encoder emits the RESP sequence per frame kind; the KeyValueStorage impl maps set/get/del to put/get/delete; the server binary keeps the store open while serving; argument errors reject the whole command; a connection slot is released in Handler's Drop on every way a handler ends (errors included), so later connections are still accepted and answered; the socket is read only after the buffered bytes were tried (requests that arrive in one segment are all answered); the parser compares an announced length only with the bytes at hand or 0/-1 (no size limit of its own: a large value is not refused); conversions into the key type wrap the argument's bytes unchanged (no trimming or normalisation of keys)",
         "not_decided": "byte-for-byte value equality and segmentation independence as observed behaviour",
     },
     "C07": {
